@@ -101,6 +101,7 @@ class App3(Component):
 a3 = App3()
 a3.fire(ev('q'))
 if ran: bad.append('fire() ran a handler')
+print('queue-priority, handler-priority and stop() programs (enumerated): %d violating' % len(bad))
 for b in bad[:6]: print(b)
 if bad: print('REPRODUCED')
 sys.exit(1 if bad else 0)
